@@ -90,7 +90,9 @@ func buildFlattenRuns(tier string, seed int64, scratch string, which string) ([]
 			sets = append(sets, flattenOpts{KeepNames: true}, flattenOpts{Minimal: true, KeepNames: true, RemoveUnused: true})
 		}
 		for j, o := range sets {
-			args := flattenArgs{Opts: o, InW: inW(b.Feat, o), Second: !o.Expand, Rerun: o.Expand, Getters: true, Phases: true}
+			// phase snapshots (L1 contracts, L2 step conformance) are recorded for a rotating third of the runs in the quick tier
+			phases := tier == "thorough" || (i+j+int(seed))%3 == 0
+			args := flattenArgs{Opts: o, InW: inW(b.Feat, o), Second: !o.Expand, Rerun: o.Expand, Getters: true, Phases: phases, Anon: b.Feat.Anon || b.Feat.SharedPtr}
 			runs = append(runs, &flattenRun{c: c, args: args, tid: fmt.Sprintf("%so%d", c.Tid, j)})
 		}
 	}
@@ -290,6 +292,40 @@ func checkFlattenOne(prop, tier string, seed int64) int {
 			what = "[opts " + run.args.Opts.String() + "] " + what
 		}
 		rep.AddViolation(Violation{Prop: prop, Tid: run.tid, Sig: sig, What: what, Replay: replay})
+	}
+	// step-level conformance (L2): how many recorded runs are fully explained by the constructive operators of Flatten.tla
+	conform, drift := 0, map[string]int{}
+	for _, run := range fc.runs {
+		if v, ok := fc.tlc.Verdicts[run.tid]; ok {
+			if sv, has := v["STEPS"]; has {
+				if sv {
+					conform++
+				} else {
+					drift["?"]++
+				}
+			}
+		}
+	}
+	driftSample := ""
+	for _, d := range fc.tlc.Diags {
+		if _, p, clause, _ := diagShape(d); p == "STEPS" {
+			drift[clause]++
+			if driftSample == "" {
+				driftSample = d
+				if len(driftSample) > 700 {
+					driftSample = driftSample[:700]
+				}
+			}
+		}
+	}
+	if driftSample != "" {
+		rep.Extra["model_drift_sample"] = driftSample
+	}
+	delete(drift, "?")
+	rep.Extra["step_conformant_runs"] = conform
+	if len(drift) > 0 {
+		rep.Extra["model_drift_by_phase"] = drift
+		rep.Notes = append(rep.Notes, fmt.Sprintf("model-drift: %v (phase transitions not explained by Flatten.tla; properties are judged on the recorded states regardless)", drift))
 	}
 	rep.Extra["tlc_wall_s"] = fc.tlc.WallS
 	rep.Extra["runs"] = len(fc.runs)
